@@ -536,7 +536,7 @@ def run_history(ctx, rng, cfg, ops=None, battery_every=1, after_event=None, tag=
                 ctx.check(f"{tag}:copy-independent", Sg2.same(Sg) and not Pg,
                           f"{tag}:mutation-leaked-through-copy:{name}", wit, abort=True)
         if battery_every and (i % battery_every == 0 or i == n_ops - 1):
-            bat.battery(ctx, live[which][0], S_after, rng, tag=tag, wit=wit)
+            bat.battery(ctx, live[which][0], S_after, rng, tag=tag, wit=wit, full=getattr(cfg, "full_battery", False))
             if kind in ("T", "M") or rng.random() < 0.2:  # queries/derivations must not mutate
                 Pq = []
                 S_q = observe(live[which][0], Pq)
